@@ -803,6 +803,10 @@ def r7_walkers(ctx, rid: str = "C13.R7", scope=("sigma.processing", "sigma.valid
                         if not impls:
                             return False
                         for m_ in impls:  # every implementation the call can reach has to come back
+                            if any(d_.split(".")[-1] == "abstractmethod" for d_ in m_.decorators) or all(
+                                    isinstance(b_, ast.Pass) or (isinstance(b_, ast.Expr) and isinstance(b_.value, ast.Constant)) or (isinstance(b_, ast.Raise) and "NotImplementedError" in unparse(b_))
+                                    for b_ in m_.node.body):
+                                continue  # an abstract declaration: nothing runs there
                             names = {call_name(c_) for c_ in ast.walk(m_.node) if isinstance(c_, ast.Call)}
                             if f"self.{f.name}" in names or f"cls.{f.name}" in names:
                                 continue
